@@ -100,3 +100,239 @@ Print Assumptions C09_bit_large.
 
 Example C09_words_nonvacuous : wf 64 [5; 0; 1] /\ value 64 [5; 0; 1] <> 0 /\ trailing_ones_large 64 [5; 0; 1] = 1.
 Proof. split; [repeat constructor; lia | split; [cbn; lia | reflexivity]]. Qed.
+
+(** ------------------------------------------------------------------------------------------
+    word-level as-is models of the magnitude kernels of bits.rs / shift.rs / shift_ops.rs /
+    math.rs / repr.rs (Int/BitsKernels.v): every theorem holds for every word size w > 0, every
+    operand length and every bit position / shift count. [brepr_ok] is the representation
+    invariant of a magnitude (at most two words inline, otherwise >= 3 words, top word non-zero). *)
+From Dashu Require Import Int.BitsKernels Int.BitsKernelsBase Int.BitsLogicProofs Int.BitsShiftProofs
+  Int.BitsMiscProofs Int.BitsCountProofs Int.BitsSignedProofs Int.BitsTrailProofs.
+
+Theorem C09_from_buffer : forall w, 0 < w -> forall ws, wf w ws ->
+  bvalue w (from_buffer w ws) = value w ws /\ brepr_ok w (from_buffer w ws).
+Proof. exact from_buffer_ok. Qed.
+Print Assumptions C09_from_buffer.
+
+Theorem C09_to_brepr : forall w, 0 < w -> forall v, 0 <= v -> bvalue w (to_brepr w v) = v /\ brepr_ok w (to_brepr w v).
+Proof. exact to_brepr_ok. Qed.
+Print Assumptions C09_to_brepr.
+
+(** & | ^ and_not on operands of any two lengths: which buffer is kept, truncation, tail push *)
+Theorem C09_bitand_large : forall w, 0 < w -> forall buf rhs, wf w buf -> wf w rhs ->
+  bvalue w (bitand_large w buf rhs) = Z.land (value w buf) (value w rhs) /\ brepr_ok w (bitand_large w buf rhs).
+Proof. exact bitand_large_correct. Qed.
+Print Assumptions C09_bitand_large.
+
+Theorem C09_bitor_large : forall w, 0 < w -> forall buf rhs, wf w buf -> wf w rhs ->
+  bvalue w (bitor_large w buf rhs) = Z.lor (value w buf) (value w rhs) /\ brepr_ok w (bitor_large w buf rhs).
+Proof. exact bitor_large_correct. Qed.
+Print Assumptions C09_bitor_large.
+
+Theorem C09_bitxor_large : forall w, 0 < w -> forall buf rhs, wf w buf -> wf w rhs ->
+  bvalue w (bitxor_large w buf rhs) = Z.lxor (value w buf) (value w rhs) /\ brepr_ok w (bitxor_large w buf rhs).
+Proof. exact bitxor_large_correct. Qed.
+Print Assumptions C09_bitxor_large.
+
+Theorem C09_and_not_large : forall w, 0 < w -> forall buf rhs, wf w buf -> wf w rhs ->
+  bvalue w (and_not_large w buf rhs) = Z.ldiff (value w buf) (value w rhs) /\ brepr_ok w (and_not_large w buf rhs).
+Proof. exact and_not_large_correct. Qed.
+Print Assumptions C09_and_not_large.
+
+(** the Small/Large dispatch of BitAnd / BitOr / BitXor / AndNot for every ownership combination *)
+Theorem C09_repr_bitand : forall w, 0 < w -> forall o a b, brepr_ok w a -> brepr_ok w b ->
+  bvalue w (repr_bitand w o a b) = Z.land (bvalue w a) (bvalue w b) /\ brepr_ok w (repr_bitand w o a b).
+Proof. exact repr_bitand_correct. Qed.
+Print Assumptions C09_repr_bitand.
+
+Theorem C09_repr_bitor : forall w, 0 < w -> forall o a b, brepr_ok w a -> brepr_ok w b ->
+  bvalue w (repr_bitor w o a b) = Z.lor (bvalue w a) (bvalue w b) /\ brepr_ok w (repr_bitor w o a b).
+Proof. exact repr_bitor_correct. Qed.
+Print Assumptions C09_repr_bitor.
+
+Theorem C09_repr_bitxor : forall w, 0 < w -> forall o a b, brepr_ok w a -> brepr_ok w b ->
+  bvalue w (repr_bitxor w o a b) = Z.lxor (bvalue w a) (bvalue w b) /\ brepr_ok w (repr_bitxor w o a b).
+Proof. exact repr_bitxor_correct. Qed.
+Print Assumptions C09_repr_bitxor.
+
+Theorem C09_repr_and_not : forall w, 0 < w -> forall a b, brepr_ok w a -> brepr_ok w b ->
+  bvalue w (repr_and_not w a b) = Z.ldiff (bvalue w a) (bvalue w b) /\ brepr_ok w (repr_and_not w a b).
+Proof. exact repr_and_not_correct. Qed.
+Print Assumptions C09_repr_and_not.
+
+(** impl_ibig_bitand/bitor/bitxor over the word-level kernels = the regenerated sign tables,
+    hence the two's-complement operation on the signed values *)
+Theorem C09_ibig_bitops_asis_table : forall w, 0 < w -> forall o s0 r0 s1 r1, mag_ok w s0 r0 -> mag_ok w s1 r1 ->
+  ibig_bitand_asis w o s0 r0 s1 r1 = ibig_bitand_gen s0 (bvalue w r0) s1 (bvalue w r1) /\
+  ibig_bitor_asis w o s0 r0 s1 r1 = ibig_bitor_gen s0 (bvalue w r0) s1 (bvalue w r1) /\
+  ibig_bitxor_asis w o s0 r0 s1 r1 = ibig_bitxor_gen s0 (bvalue w r0) s1 (bvalue w r1).
+Proof. exact ibig_bitops_asis_table. Qed.
+Print Assumptions C09_ibig_bitops_asis_table.
+
+Theorem C09_ibig_bitops_asis : forall w, 0 < w -> forall o s0 r0 s1 r1, mag_ok w s0 r0 -> mag_ok w s1 r1 ->
+  ibig_bitand_asis w o s0 r0 s1 r1 = Z.land (signed s0 (bvalue w r0)) (signed s1 (bvalue w r1)) /\
+  ibig_bitor_asis w o s0 r0 s1 r1 = Z.lor (signed s0 (bvalue w r0)) (signed s1 (bvalue w r1)) /\
+  ibig_bitxor_asis w o s0 r0 s1 r1 = Z.lxor (signed s0 (bvalue w r0)) (signed s1 (bvalue w r1)).
+Proof. exact ibig_bitops_asis_correct. Qed.
+Print Assumptions C09_ibig_bitops_asis.
+
+(** shift.rs: bit shifts by less than a word with the carry handed from word to word *)
+Theorem C09_shl_in_place : forall w, 0 < w -> forall ws s, 0 <= s < w -> wf w ws ->
+  let '(r, c) := shl_in_place w ws s in
+  wf w r /\ length r = length ws /\ value w r + B w ^ len ws * c = value w ws * 2 ^ s /\ 0 <= c < B w.
+Proof. exact shl_in_place_correct. Qed.
+Print Assumptions C09_shl_in_place.
+
+Theorem C09_shr_in_place : forall w, 0 < w -> forall ws s, 0 <= s <= w -> wf w ws ->
+  let '(r, c) := shr_in_place w ws s in
+  wf w r /\ length r = length ws /\ value w r = value w ws / 2 ^ s.
+Proof. exact shr_in_place_correct. Qed.
+Print Assumptions C09_shr_in_place.
+
+(** shift_ops.rs mod repr: << and >> on magnitudes (inline double word with its spill paths, heap
+    buffer shifted in place or copied - the capacity test does not change the result) *)
+Theorem C09_repr_shl : forall w, 0 < w -> forall cap r rhs, 0 <= rhs -> brepr_ok w r ->
+  bvalue w (repr_shl w cap r rhs) = Z.shiftl (bvalue w r) rhs /\ brepr_ok w (repr_shl w cap r rhs).
+Proof. exact repr_shl_correct. Qed.
+Print Assumptions C09_repr_shl.
+
+Theorem C09_repr_shl_ref : forall w, 0 < w -> forall r rhs, 0 <= rhs -> brepr_ok w r ->
+  bvalue w (repr_shl_ref w r rhs) = Z.shiftl (bvalue w r) rhs /\ brepr_ok w (repr_shl_ref w r rhs).
+Proof. exact repr_shl_ref_correct. Qed.
+Print Assumptions C09_repr_shl_ref.
+
+Theorem C09_shl_large_capacity_irrelevant : forall w buf rhs, shl_large w true buf rhs = shl_large w false buf rhs.
+Proof. exact shl_large_capacity_irrelevant. Qed.
+Print Assumptions C09_shl_large_capacity_irrelevant.
+
+Theorem C09_repr_shr : forall w, 0 < w -> forall r rhs, 0 <= rhs -> brepr_ok w r ->
+  bvalue w (repr_shr w r rhs) = Z.shiftr (bvalue w r) rhs /\ brepr_ok w (repr_shr w r rhs).
+Proof. exact repr_shr_correct. Qed.
+Print Assumptions C09_repr_shr.
+
+Theorem C09_repr_shr_ref : forall w, 0 < w -> forall r rhs, 0 <= rhs -> brepr_ok w r ->
+  bvalue w (repr_shr_ref w r rhs) = Z.shiftr (bvalue w r) rhs /\ brepr_ok w (repr_shr_ref w r rhs).
+Proof. exact repr_shr_ref_correct. Qed.
+Print Assumptions C09_repr_shr_ref.
+
+(** are_dword_low_bits_nonzero (as repaired) / are_slice_low_bits_nonzero = the predicate the
+    regenerated Shr table uses *)
+Theorem C09_are_low_bits_nonzero : forall w, 0 < w -> forall r n, 0 <= n -> brepr_ok w r ->
+  are_low_bits_nonzero w r n = low_bits_nonzero (bvalue w r) n.
+Proof. exact are_low_bits_nonzero_correct. Qed.
+Print Assumptions C09_are_low_bits_nonzero.
+
+(** Shr for IBig / &IBig over the word-level kernels = the regenerated table = Z.shiftr = floor *)
+Theorem C09_ibig_shr_asis_table : forall w, 0 < w -> forall s r n, 0 <= n -> brepr_ok w r ->
+  ibig_shr_asis w s r n = ibig_shr_gen s (bvalue w r) n /\ ibig_shr_ref_asis w s r n = ibig_shr_ref_gen s (bvalue w r) n.
+Proof. exact ibig_shr_asis_table. Qed.
+Print Assumptions C09_ibig_shr_asis_table.
+
+Theorem C09_ibig_shr_asis : forall w, 0 < w -> forall s r n, 0 <= n -> brepr_ok w r ->
+  ibig_shr_asis w s r n = Z.shiftr (signed s (bvalue w r)) n /\
+  ibig_shr_ref_asis w s r n = Z.shiftr (signed s (bvalue w r)) n /\
+  ibig_shr_asis w s r n = signed s (bvalue w r) / 2 ^ n.
+Proof. exact ibig_shr_asis_correct. Qed.
+Print Assumptions C09_ibig_shr_asis.
+
+Theorem C09_ibig_shl_asis : forall w, 0 < w -> forall s cap r n, 0 <= n -> brepr_ok w r ->
+  ibig_shl_asis w s cap r n = Z.shiftl (signed s (bvalue w r)) n.
+Proof. exact ibig_shl_asis_correct. Qed.
+Print Assumptions C09_ibig_shl_asis.
+
+(** single bits, masks, counts: each word-level model equals its specification of Int/BitsSpec.v *)
+Theorem C09_repr_ones : forall w, 0 < w -> forall n, 0 <= n ->
+  bvalue w (repr_ones w n) = ones_spec n /\ brepr_ok w (repr_ones w n).
+Proof. exact repr_ones_correct. Qed.
+Print Assumptions C09_repr_ones.
+
+Theorem C09_repr_bit : forall w, 0 < w -> forall r n, 0 <= n -> brepr_ok w r -> repr_bit w r n = Z.testbit (bvalue w r) n.
+Proof. exact repr_bit_correct. Qed.
+Print Assumptions C09_repr_bit.
+
+Theorem C09_ibig_bit : forall w, 0 < w -> forall s r n, 0 <= n -> brepr_ok w r -> bvalue w r <> 0 ->
+  ibig_bit w s r n = Z.testbit (signed s (bvalue w r)) n.
+Proof. exact ibig_bit_correct. Qed.
+Print Assumptions C09_ibig_bit.
+
+Theorem C09_repr_set_bit : forall w, 0 < w -> forall r n, 0 <= n -> brepr_ok w r ->
+  bvalue w (repr_set_bit w r n) = set_bit_spec (bvalue w r) n /\ brepr_ok w (repr_set_bit w r n).
+Proof. exact repr_set_bit_correct. Qed.
+Print Assumptions C09_repr_set_bit.
+
+Theorem C09_repr_clear_bit : forall w, 0 < w -> forall r n, 0 <= n -> brepr_ok w r ->
+  bvalue w (repr_clear_bit w r n) = clear_bit_spec (bvalue w r) n /\ brepr_ok w (repr_clear_bit w r n).
+Proof. exact repr_clear_bit_correct. Qed.
+Print Assumptions C09_repr_clear_bit.
+
+Theorem C09_repr_clear_high_bits : forall w, 0 < w -> forall r n, 0 <= n -> brepr_ok w r ->
+  bvalue w (repr_clear_high_bits w r n) = clear_high_bits_spec (bvalue w r) n /\ brepr_ok w (repr_clear_high_bits w r n).
+Proof. exact repr_clear_high_bits_correct. Qed.
+Print Assumptions C09_repr_clear_high_bits.
+
+Theorem C09_repr_split_bits : forall w, 0 < w -> forall r n, 0 <= n -> brepr_ok w r ->
+  let '(lo, hi) := repr_split_bits w r n in
+  (bvalue w lo, bvalue w hi) = split_bits_spec (bvalue w r) n /\ brepr_ok w lo /\ brepr_ok w hi.
+Proof. exact repr_split_bits_correct. Qed.
+Print Assumptions C09_repr_split_bits.
+
+Theorem C09_repr_bit_len : forall w, 0 < w -> forall r, brepr_ok w r -> repr_bit_len w r = bit_len_spec (bvalue w r).
+Proof. exact repr_bit_len_correct. Qed.
+Print Assumptions C09_repr_bit_len.
+
+Theorem C09_repr_count_ones : forall w, 0 < w -> forall r, brepr_ok w r -> repr_count_ones r = count_ones_spec (bvalue w r).
+Proof. exact repr_count_ones_correct. Qed.
+Print Assumptions C09_repr_count_ones.
+
+Theorem C09_repr_count_zeros : forall w, 0 < w -> forall r, brepr_ok w r -> repr_count_zeros w r = count_zeros_spec (bvalue w r).
+Proof. exact repr_count_zeros_correct. Qed.
+Print Assumptions C09_repr_count_zeros.
+
+Theorem C09_repr_is_power_of_two : forall w, 0 < w -> forall r, brepr_ok w r ->
+  repr_is_power_of_two r = is_power_of_two_spec (bvalue w r).
+Proof. exact repr_is_power_of_two_correct. Qed.
+Print Assumptions C09_repr_is_power_of_two.
+
+Theorem C09_repr_next_power_of_two : forall w, 0 < w -> forall r, brepr_ok w r ->
+  bvalue w (repr_next_power_of_two w r) = next_power_of_two_spec (bvalue w r) /\ brepr_ok w (repr_next_power_of_two w r).
+Proof. exact repr_next_power_of_two_correct. Qed.
+Print Assumptions C09_repr_next_power_of_two.
+
+(** trailing ones of a magnitude and of a negative number (trailing_ones_neg with
+    trailing_zeros_large_shifted_by_one): IBig::trailing_ones = trailing_ones_spec of the signed value *)
+Theorem C09_repr_trailing_ones : forall w, 0 < w -> forall r, brepr_ok w r ->
+  trailing_ones_spec (bvalue w r) = Some (repr_trailing_ones w r).
+Proof. exact repr_trailing_ones_correct. Qed.
+Print Assumptions C09_repr_trailing_ones.
+
+Theorem C09_ibig_trailing_ones : forall w, 0 < w -> forall s r, brepr_ok w r -> (s = Negative -> 1 <= bvalue w r) ->
+  ibig_trailing_ones w s r = trailing_ones_spec (signed s (bvalue w r)).
+Proof. exact ibig_trailing_ones_correct. Qed.
+Print Assumptions C09_ibig_trailing_ones.
+
+Theorem C09_repr_trailing_zeros : forall w, 0 < w -> forall r, brepr_ok w r ->
+  repr_trailing_zeros w r = trailing_zeros_spec (bvalue w r).
+Proof. exact repr_trailing_zeros_correct. Qed.
+Print Assumptions C09_repr_trailing_zeros.
+
+(** `big & unsigned primitive` is returned as the primitive type (try_into().unwrap()): it always fits *)
+Theorem C09_and_unsigned_primitive_fits : forall x p k, 0 <= k -> 0 <= p < 2 ^ k -> 0 <= Z.land x p < 2 ^ k.
+Proof. exact land_unsigned_prim_fits. Qed.
+Print Assumptions C09_and_unsigned_primitive_fits.
+
+(** non-vacuity of the hypotheses of the word-level theorems *)
+Example C09_kernels_nonvacuous :
+  brepr_ok 64 (BLarge [5; 0; 1]) /\ brepr_ok 64 (BSmall 7) /\ mag_ok 64 Negative (BLarge [0; 0; 0; 1]) /\
+  bvalue 64 (bitand_large 64 [5; 0; 1] [7; 1]) = 5 /\
+  bvalue 64 (repr_shr 64 (BLarge [0; 0; 0; 1]) 129) = 2 ^ 63 /\
+  ibig_shr_asis 64 Negative (BLarge [1; 0; 0; 1]) 192 = -2.
+Proof.
+  assert (B1 : 0 <= 1 < B 64) by (unfold B; lia). assert (B0 : 0 <= 0 < B 64) by (unfold B; lia).
+  assert (B5 : 0 <= 5 < B 64) by (unfold B; lia).
+  assert (K : brepr_ok 64 (BLarge [0; 0; 0; 1])).
+  { cbn [brepr_ok]. split; [repeat (apply wf_cons; split; [assumption|]); constructor|]. split; [cbn; lia | cbn; lia]. }
+  split; [cbn [brepr_ok]; split; [repeat (apply wf_cons; split; [assumption|]); constructor | split; cbn; lia]|].
+  split; [cbn [brepr_ok]; unfold B; lia|].
+  split; [split; [exact K | intros _; cbn [bvalue value]; unfold B; lia]|].
+  split; [vm_compute; reflexivity|]. split; vm_compute; reflexivity.
+Qed.
